@@ -15,7 +15,7 @@ from hypothesis import strategies as st
 from vlib.core import SubCheck, Violation
 from vlib.copula_ref import cells_of_axis
 from vlib.grids import GridRejected, build_grid, chain_model_spec, grid_spec
-from vlib.models import activity, branch_of, build_copula_model, build_model, quad_hints
+from vlib.models import _f, activity, branch_of, build_copula_model, build_model, quad_hints
 from vlib.oracles import nu_integral
 
 PROPERTY_ID = "C04"
@@ -71,7 +71,16 @@ def _compensated_first_moment(spec, rep_name, l, r):
 
 @st.composite
 def strat_1d(draw, tier):
-    return {"model": draw(chain_model_spec()), "grid": draw(grid_spec(max_refine=2)),
+    g = draw(grid_spec(max_refine=2))
+    # very coarse level 0: a central cell reaching beyond [-1, 1] (fixed number of points, no refinement)
+    if draw(st.integers(0, 9)) == 0:
+        g = {"type": "uniform-fixed", "h_rel": 1.0, "h_abs": draw(_f(2.2, 6.0)), "dimension": 1, "n": draw(st.integers(4, 40)),
+             "refine": 0}
+    model = draw(chain_model_spec())
+    if g.get("h_abs") and draw(st.booleans()):
+        # (the cut-off of the large-jump compensator only matters for infinite variation: built, not waited for)
+        model = draw(chain_model_spec(families=("cgmy",), cgmy_branches=("y=1", "1<y<2")))
+    return {"model": model, "grid": g,
             "rep": draw(st.sampled_from(REPS)),
             "method": draw(st.sampled_from(["INVERSION", "BINARYSEARCHTREEADAPTED1D", "BINARYSEARCHTREE"]))}
 
@@ -131,8 +140,12 @@ def body_1d(case):
         if abs(extra) > 1e-14 * max(1.0, sigma ** 2):
             out.append(Violation(f"C04/1d/{br}/variance-added-for-finite-variation",
                                  f"equivalent coefficient^2 - sigma^2 = {extra!r}; {detail}"))
+    elif h > 2.0:
+        # central cell beyond [-1, 1]: the library leaves the variance of the jumps with 1 < |x| <= h/2 out; whether a
+        # step that coarse is in the intended domain is not for this check to say (the mean, above, is decided)
+        out.append(Violation("LABEL:step-above-2/small-jump-variance-not-decided"))
     else:
-        small, sc2, _ = nu_integral(base_nu, max(-h / 2, -1.0), min(h / 2, 1.0), 2, hints)
+        small, sc2, _ = nu_integral(base_nu, -h / 2, h / 2, 2, hints)
         if abs(extra - small) > 1e-7 * small + 1e-13:
             out.append(Violation(f"C04/1d/{br}/small-jump-variance",
                                  f"equivalent coefficient^2 - sigma^2 = {extra!r}, integral of x^2 nu over the "
@@ -158,6 +171,8 @@ def classify_1d(case):
     fa, fv = activity(spec)
     labels = [branch_of(spec), g["type"], f"refine={g['refine']}", f"rep={case['rep']}",
               "exp" if spec["exp"] else "plain", "finite-variation" if fv else "infinite-variation"]
+    if g.get("h_abs"):
+        labels.append("step-above-2" + ("" if fv else "/infinite-variation"))
     nt = g["refine"] >= 1 or g["type"] != "uniform" or case["rep"] != "ASIS" or not fv
     return labels, nt
 
@@ -180,6 +195,10 @@ def strat_copula(draw, tier):
             new["exp"] = m["exp"]
             case["margins"][j] = new
     case["reps"] = [draw(st.sampled_from(REPS)) for _ in case["margins"]]
+    # with independent components the small jumps of an infinite-variation margin lie on its axis: the variance added to
+    # the diffusion has a one-dimensional reference (half of those cases)
+    if any(not activity(m)[1] for m in case["margins"]) and draw(st.booleans()):
+        case["copula"] = {"type": "independent"}
     return case
 
 
@@ -235,6 +254,48 @@ def body_copula(case):
             out.append(Violation(f"C04/copula/d{d}/{br}/declared={rep_names[k]}/margin-mean-differs",
                                  f"margin {k}: chain drift + sum x_k rate = {chain_mean!r}; truncated margin mean "
                                  f"= {ref_mean!r}; allowed leak {leak:.3g}; {detail}"))
+    # variance added to the diffusion part: nothing for finite variation, a positive semi-definite matrix otherwise
+    dm = np.asarray(proc._path_simulation.diffusion_matrix, dtype=float)
+    sig2 = np.diag([float(build_model(m, force_exp=False).levy_triplet.sigma) ** 2 for m in case["margins"]])
+    fv = all(activity(m)[1] for m in case["margins"])
+    if dm.shape != (d, d) or not np.all(np.isfinite(dm)):
+        out.append(Violation(f"C04/copula/d{d}/diffusion-matrix-not-finite", f"{dm.tolist()}; {detail}"))
+    else:
+        added = dm @ dm.T - sig2
+        scale = max(1e-300, float(np.abs(dm @ dm.T).max()))
+        if fv and float(np.abs(added).max()) > 1e-10 * scale + 1e-300:
+            out.append(Violation(f"C04/copula/d{d}/finite-variation/variance-added-to-the-diffusion",
+                                 f"D D^T = {(dm @ dm.T).tolist()} vs diag(sigma^2) = {np.diag(sig2).tolist()}; {detail}"))
+        if not fv and float(np.linalg.eigvalsh((added + added.T) / 2).min()) < -1e-9 * scale:
+            out.append(Violation(f"C04/copula/d{d}/infinite-variation/added-variance-not-positive-semi-definite",
+                                 f"D D^T - diag(sigma^2) = {added.tolist()}; {detail}"))
+        elif not fv and d == 2:
+            # (a) what is added is the covariance matrix of the small jumps as the library's own function computes it (same
+            #     quadrature, so the comparison is sharp): added as a covariance, not as a "standard deviation"
+            from rpylib.process.markovchain.markovchainlevycopula import vol_adjustment_ij
+
+            h = float(grid.h)
+            cov = np.array([[float(vol_adjustment_ij(i, j, h, proc.model)) for j in range(d)] for i in range(d)])
+            if float(np.abs(added - cov).max()) > 1e-8 * float(np.abs(cov).max()) + 1e-14:
+                out.append(Violation(f"C04/copula/d{d}/infinite-variation/added-variance-is-not-the-small-jump-covariance",
+                                     f"D D^T - diag(sigma^2) = {added.tolist()}, covariance of the jumps inside the central "
+                                     f"cell (vol_adjustment_ij) = {cov.tolist()}; {detail}"))
+            # (b) with independent components that covariance has a one-dimensional reference: on axis k the jumps of margin
+            #     k with |x| < h/2; the library integrates with epsabs = 1e-3 (times 2/h): that bound is the tolerance
+            if case["copula"]["type"] == "independent" and h <= 2.0:
+                ref = []
+                for m in case["margins"]:
+                    nu = build_model(m, force_exp=False).levy_triplet.nu
+                    # (every margin: the copula model as a whole is of infinite variation, and the jumps of a
+                    # finite-variation margin inside the central cell are not simulated either)
+                    ref.append(nu_integral(nu, -h / 2, h / 2, 2, quad_hints(m))[0])
+                ref = np.diag(ref)
+                bound = 2e-3 / h ** (d - 1) + 1e-3 * float(np.abs(ref).max())
+                if float(np.abs(cov - ref).max()) > bound:
+                    out.append(Violation(f"C04/copula/d{d}/infinite-variation/small-jump-covariance",
+                                         f"independent components: vol_adjustment_ij = {cov.tolist()}, second moments of the "
+                                         f"margins over (-h/2, h/2) = {np.diag(ref).tolist()} (quadrature bound {bound:.3g}); {detail}"))
+            out.append(Violation("LABEL:infinite-variation-independent-components"))
     return out
 
 
@@ -255,11 +316,12 @@ SUBCHECKS = [
                   "non-trivial = refined or non-uniform grid or re-declared representation or infinite variation",
              strategy=strat_1d, budget={"quick": 720, "thorough": 3000},
              shards={"quick": 16, "thorough": 16},
-             essential_labels=("infinite-variation", "rep=CENTER", "rep=ONEONE")),
+             essential_labels=("infinite-variation", "rep=CENTER", "rep=ONEONE", "step-above-2/infinite-variation")),
     SubCheck("mean-copula-margins", body_copula, classify_copula,
              rule="copula chains d=2,3 (as in C01) x declared representation per margin: every margin's mean "
                   "per unit time (drift + sum over all states of x_k * rate) vs its truncated margin mean, with "
                   "the box-truncation leak of the other coordinates added to the tolerance",
              strategy=strat_copula, budget={"quick": 64, "thorough": 640},
-             shards={"quick": 16, "thorough": 16}, essential_labels=("mixed-variation-types",)),
+             shards={"quick": 16, "thorough": 16},
+             essential_labels=("mixed-variation-types", "infinite-variation-independent-components")),
 ]
